@@ -3,8 +3,9 @@
 (* complete environment, result, projected store - is re-computed by the SAME scanner actions of Expand  *)
 (* and the recorded result must be one of the acceptable results.  The file named by env TRACE holds one *)
 (* JSON object per line:                                                                                 *)
-(*   {"reset":bool, "env":[[name,value],...], "prog":[name,version], "input":[..], "isnull":bool,          *)
+(*   {"op":"expand", "reset":bool, "env":[[name,value],...], "prog":[name,version], "input":[..], "isnull":bool,          *)
 (*    "got":[..], "store":[[k,v],..]}                                                                    *)
+(* or {"op":"register", "reset":bool, "name":[..], "kind":0..2, "ret":n}  (n-th application built-in registered)   *)
 (* reset = the recording process started from an empty store.  One JSON verdict line is printed per      *)
 (* event; an event whose value the specification does not claim is consumed without comparing.           *)
 EXTENDS Expand, IOUtils
@@ -15,7 +16,8 @@ Tr == ndJsonDeserialize(IOEnv.TRACE)
 EnvTrace(e, nm) == LET ev == Tr[e].env
                        hit == {i \in 1 .. Len(ev) : ev[i][1] = nm}
                    IN IF hit = {} THEN <<>> ELSE ev[CHOOSE i \in hit : TRUE][2]
-StartsNone(st) == {}
+StartsNone(st, rg) == {}
+RegNone == <<>>
 AppNameTr(e) == Tr[e].prog[1]         \* program name / version in force when the event was recorded
 AppVersionTr(e) == Tr[e].prog[2]
 
@@ -36,11 +38,24 @@ ObsTrace(op, args, ret, post) ==
                          trunc |-> ret.trunc, alts |-> Cardinality(ret.outs)]))
 
 TraceInit == Init /\ l = 1 /\ lost = FALSE
+\* reset = the event is the first of its history: the recording process started it with an empty store and a fresh table
+RegNow == IF Tr[l].reset THEN <<>> ELSE reg
 TraceNext ==
-    \/ /\ phase = "idle" /\ l <= Len(Tr)
-       /\ phase' = "scan" /\ envid' = l /\ stack' = <<Frame(Tr[l].input, "top")>>
+    \/ /\ phase = "idle" /\ l <= Len(Tr) /\ Tr[l].op = "expand"
+       /\ phase' = "scan" /\ envid' = l /\ stack' = <<Frame(Tr[l].input, "top", 0)>>
        /\ LET st == IF Tr[l].reset THEN <<>> ELSE store IN store' = st /\ store0' = st
+       /\ reg' = RegNow
        /\ l' = l /\ lost' = (lost /\ ~Tr[l].reset)
+    \/ /\ phase = "idle" /\ l <= Len(Tr) /\ Tr[l].op = "register"            \* lifecycle event: the same OpRegister rule of Expand
+       /\ LET nm == Tr[l].name kind == Tr[l].kind
+              okname == RegNameOK(nm, RegNow)
+          IN /\ reg' = Append(RegNow, [name |-> nm, kind |-> kind])
+             /\ PrintT(ToJson([l |-> l, ok |-> okname /\ kind \in 0 .. 2 /\ Tr[l].ret = Len(RegNow) + 1, claimed |-> TRUE, why |-> "register",
+                               trunc |-> FALSE, alts |-> 0]))
+       /\ LET st == IF Tr[l].reset THEN <<>> ELSE store IN store' = st /\ store0' = st
+       /\ UNCHANGED <<phase, envid, stack>>
+       /\ l' = l + 1 /\ lost' = (lost /\ ~Tr[l].reset)
+       /\ (l + 1 > Len(Tr)) => PrintT("TRACE_DONE")
     \/ /\ Scan
        /\ l' = IF phase' = "idle" THEN l + 1 ELSE l
        /\ IF phase' = "idle" THEN TRUE ELSE lost' = lost
